@@ -1,3 +1,4 @@
+import re
 """C48 — configuration flags parse and validate values.
 Theorems: lean/SgVerif/C48/Props.lean over the model of src/xbt/config.cpp and the item table *generated from the built
 library* on every run (props/C48/gen_config.py -> lean/SgVerif/C48/Gen.lean).  Correspondence: every registered item x
@@ -196,6 +197,10 @@ def run(ctx):
             api = rng.choice(["str", "str", "parse", "eng"])
             if api != "str" and (any(ch in v for ch in " \t\n,") or v == ""):
                 api = "str"             # set_parse would split the token at separators / reject the empty token differently
+            if c.endswith("-valid") and rng.below(4) == 0 and (
+                    (t == "bool" and v in ("0", "1")) or (t == "int" and re.fullmatch(r"-?[1-9][0-9]{0,8}|0", v)) or
+                    (t == "double" and re.fullmatch(r"-?[0-9]{1,6}(\.[0-9]{1,4})?", v)) or (t == "string" and v != "")):
+                api = "typ"             # the typed API on a canonical value of the item's type
             # in-process (no fork) only when the type's parser must refuse the value: no callback can run
             queries.append("%s %s %s %s %s" % ("setn" if c.endswith("-invalid") else "set", api, hx(n), hx(v), cls[n]))
             kinds[c] = kinds.get(c, 0) + 1
